@@ -739,7 +739,7 @@ fn render_struct_line(
         },
         (Unnamed(index), None, Kind::OwnedInto | Kind::RefInto, TypeHint::Tuple | TypeHint::Unspecified) =>
             if ctx.has_post_init {
-                let index2 = Unnamed(Index { index: idx as u32, span: Span::call_site() });
+                let index2 = Unnamed(Index { index: f.idx as u32, span: Span::call_site() });
                 quote!(obj.#index2 = #obj #index;)
             } else {
                 let index = if ctx.impl_type.is_variant() { format_ident!("f{}", index.index).to_token_stream() } else { index.to_token_stream() };
